@@ -940,9 +940,17 @@ theorem method_meets_spec (r : Req) : specOK (config r.opts) r (serve r) = true 
   have h1 := (override_keeps_original r).1
   by_cases h : (serve r).seen = r.method
   · simp [h1, h]
-  · obtain ⟨ha, hb, _, _⟩ := override_only_allowed r h
-    simp only [h1, Bool.true_and, Bool.or_eq_true, beq_iff_eq, Bool.and_eq_true]
-    right; exact ⟨ha, hb⟩
+  · obtain ⟨ha, hb, hc, _⟩ := override_only_allowed r h
+    have hask : asked (config r.opts) r = requested (config r.opts) r := by
+      unfold asked requested
+      by_cases h1 : get r.hdr (config r.opts).header = [] <;> by_cases h2 : (config r.opts).queryParam = [] <;> simp [h1, h2]
+    have hne : requested (config r.opts) r ≠ [] := by
+      intro he
+      by_cases ho : Overrides r
+      · exact ho.2.2.1 he
+      · rw [(override_iff r).2 ho] at h; exact h rfl
+    simp only [h1, Bool.true_and, Bool.or_eq_true, beq_iff_eq, Bool.and_eq_true, hask, bne_iff_ne, ne_eq]
+    right; exact ⟨⟨⟨ha, hb⟩, hne⟩, hc⟩
 
 /-- non-vacuity: default configuration, POST with `X-HTTP-Method-Override: delete ` is rewritten to
     DELETE; the same header on a GET is ignored; TRACE is not an allowed target -/
